@@ -104,10 +104,16 @@ impl Matrix {
         // Grab the first 128 bits.
         let s = a.bit_len();
         if s <= 64 {
+            #[cfg(recmo_uint_verif)]
+            crate::__verif::hit(crate::__verif::LEHMER_FROM_LE64);
             Self::from_u64(a.try_into().unwrap(), b.try_into().unwrap())
         } else if s <= 128 {
+            #[cfg(recmo_uint_verif)]
+            crate::__verif::hit(crate::__verif::LEHMER_FROM_LE128);
             Self::from_u128_prefix(a.try_into().unwrap(), b.try_into().unwrap())
         } else {
+            #[cfg(recmo_uint_verif)]
+            crate::__verif::hit(crate::__verif::LEHMER_FROM_GT128);
             let a = a >> (s - 128);
             let b = b >> (s - 128);
             Self::from_u128_prefix(a.try_into().unwrap(), b.try_into().unwrap())
@@ -135,6 +141,8 @@ impl Matrix {
         let mut q10 = 0_u64;
         let mut q11 = 1_u64;
         loop {
+            #[cfg(recmo_uint_verif)]
+            crate::__verif::tick(crate::__verif::LOOP_LEHMER_U64);
             // Loop is unrolled once to avoid swapping variables and tracking parity.
             let q = r0 / r1;
             r0 -= q * r1;
@@ -183,6 +191,8 @@ impl Matrix {
         let mut k1 = 1_u64; // u1 = 0, v1 = 1
         let mut even = true;
         if a1 < LIMIT {
+            #[cfg(recmo_uint_verif)]
+            crate::__verif::hit(crate::__verif::PREFIX_RET_A1_SMALL);
             return Matrix::IDENTITY;
         }
 
@@ -196,8 +206,12 @@ impl Matrix {
 
             // Test i + 1 (odd)
             if a2 >= v2 && a1 - a2 >= u2 {
+                #[cfg(recmo_uint_verif)]
+                crate::__verif::hit(crate::__verif::PREFIX_RET_A2_SMALL_OK);
                 return Matrix(0, 1, u2, v2, false);
             } else {
+                #[cfg(recmo_uint_verif)]
+                crate::__verif::hit(crate::__verif::PREFIX_RET_A2_SMALL_ID);
                 return Matrix::IDENTITY;
             }
         }
@@ -210,6 +224,8 @@ impl Matrix {
         // Loop until a3 < LIMIT, maintaining the last three values
         // of a and the last four values of k.
         while a3 >= LIMIT {
+            #[cfg(recmo_uint_verif)]
+            crate::__verif::tick(crate::__verif::LOOP_LEHMER_PREFIX);
             a1 = a2;
             a2 = a3;
             a3 = a1;
@@ -260,13 +276,19 @@ impl Matrix {
                 // Test i + 2 (even)
                 if a3 >= u3 && a2 - a3 >= v3 + v2 {
                     // Correct value is i + 2
+                    #[cfg(recmo_uint_verif)]
+                    crate::__verif::hit(crate::__verif::PREFIX_RET_EVEN_I2);
                     Matrix(u2, v2, u3, v3, true)
                 } else {
                     // Correct value is i + 1
+                    #[cfg(recmo_uint_verif)]
+                    crate::__verif::hit(crate::__verif::PREFIX_RET_EVEN_I1);
                     Matrix(u1, v1, u2, v2, false)
                 }
             } else {
                 // Correct value is i
+                #[cfg(recmo_uint_verif)]
+                crate::__verif::hit(crate::__verif::PREFIX_RET_EVEN_I0);
                 Matrix(u0, v0, u1, v1, true)
             }
         } else {
@@ -276,13 +298,19 @@ impl Matrix {
                 // Test i + 2 (odd)
                 if a3 >= v3 && a2 - a3 >= u3 + u2 {
                     // Correct value is i + 2
+                    #[cfg(recmo_uint_verif)]
+                    crate::__verif::hit(crate::__verif::PREFIX_RET_ODD_I2);
                     Matrix(u2, v2, u3, v3, false)
                 } else {
                     // Correct value is i + 1
+                    #[cfg(recmo_uint_verif)]
+                    crate::__verif::hit(crate::__verif::PREFIX_RET_ODD_I1);
                     Matrix(u1, v1, u2, v2, true)
                 }
             } else {
                 // Correct value is i
+                #[cfg(recmo_uint_verif)]
+                crate::__verif::hit(crate::__verif::PREFIX_RET_ODD_I0);
                 Matrix(u0, v0, u1, v1, false)
             }
         }
